@@ -9,6 +9,7 @@ R17.5 freshness: get / get_providers return stored entries only over the not-exp
       the stored expiry is not later than the new one
 R17.6 who-may: the three maps are mutated only in the listed methods
 R17.7 local_providers grows only after put_provider returned true
+R17.8 per-key provider lists are touched only by order-preserving operations; inserts use the binary-search position
 """
 import re
 from paths import refine_cuts
@@ -264,8 +265,52 @@ def r17_7(ctx, fx):
                detail="local_providers must not grow when the bounded provider map refused the key")
 
 
+ORDER_PRESERVING = r"Vec(<.*>)?::(insert|remove|pop|retain|truncate|len|is_empty|iter|clone|binary_search_by|first|last|get|get_mut|iter_mut|clear|drain)$|Index(Mut)?(<.*>)?>?::index(_mut)?$|Deref(Mut)?>?::deref(_mut)?$|slice::(<impl .*>::)?(binary_search_by|iter|len|is_empty|first|last|get)$|Clone>?::clone$|IntoIterator>?::into_iter$|vec::from_elem$"
+
+
+def r17_8(ctx, fx):
+    """sortedness by distance is maintained structurally: the per-key provider list is touched only by order-preserving
+    operations, new elements enter at the binary-search position, and the comparator orders by distance to the key"""
+    bad = []
+    n = 0
+    for key in sorted(fx.find(r"^protocol::libp2p::kademlia::store::MemoryStore::")):
+        fn = fx.fn(key)
+        for c in fn.calls():
+            if c.from_macro or not c.args:
+                continue
+            ty = fn.locals[(c.args[0].get("m") or c.args[0].get("c") or [0])[0]]
+            if not re.match(r"^(&mut |&)*(std::vec::Vec<protocol::libp2p::kademlia::record::ProviderRecord|\[protocol::libp2p::kademlia::record::ProviderRecord\])", ty):
+                continue
+            n += 1
+            if not c.matches(ORDER_PRESERVING):
+                bad.append((short(key), c.name.rsplit("::", 1)[-1], fn.site(c.node)))
+    ctx.anchor("R17.8", "calls on a provider list", n, 8, cfg=fx.cfg)
+    ctx.ob("R17.8", "provider-lists-touched-only-by-order-preserving-operations", not bad, cfg=fx.cfg,
+           detail="swap_remove / push / sort / reverse on the distance-sorted per-key list would break the binary searches: %s" % bad)
+    fn = ctx.fn(fx, MS + "put_provider", "R17.8")
+    if fn is not None:
+        bs = fn.calls(r"binary_search_by$")
+        ins = [c for c in fn.calls(r"Vec(<.*>)?::insert$") if from_field(fn, c.args[0], "provider_keys")]
+        ctx.anchor("R17.8", "put_provider: binary_search_by + insert", min(len(bs), len(ins)), 1, cfg=fx.cfg)
+        for c in ins:
+            rs = guards.rootstrs(fn, c.args[1])
+            ok = any(x.endswith("binary_search_by") for x in rs) and not any(re.match(r"const:\d+$", x) for x in rs)
+            sw = [sw for sw in fn.discr_switches() if bs and sw[1][0] in fn.copies_of(bs[0].dest[0])]
+            ok = ok and bool(sw) and fn.only_via(c.node, sw[0][0], fn.variant_edges(sw[0], "Err"))
+            ctx.ob("R17.8", "put_provider/insert-at-the-binary-search-position", ok, site=fn.site(c.node), cfg=fx.cfg, detail="index roots: %s" % sorted(rs))
+    for key in (MS + "put_provider::{closure#0}", MS + "remove_local_provider::{closure#0}"):
+        cl = ctx.fn(fx, key, "R17.8", required=False)
+        if cl is None:
+            continue
+        cmp_ = [c for c in cl.calls(r"cmp::Ord>?::cmp$|Ord(<.*>)?>?::cmp$") if c.dest == [0]]
+        dist = cl.calls(r"ProviderRecord::distance$|Key(<.*>)?::distance$")
+        ok = len(cmp_) == 1 and bool(dist) and any(("call", d.name) in cl.roots(cmp_[0].args[0]) for d in dist)
+        ctx.ob("R17.8", "%s/comparator-orders-by-distance" % (short(key) + key[key.index("::{closure"):]), ok, site=cl.site(cl.entry), cfg=fx.cfg)
+
+
 def run(ctx):
     fx = ctx.facts("default")
+    r17_8(ctx, fx)
     r17_1_2(ctx, fx)
     r17_3_4(ctx, fx)
     r17_5(ctx, fx)
